@@ -191,7 +191,7 @@ def c13_body(ref, order_seed, what="atom", gbo=False):
     return f"from vf.e3.rdkitio import c13_case\nok, why = c13_case({ref_code(ref)}, {order_seed!r}, {what!r}, {gbo!r})\nprint(why)\n"
 
 
-def star(cname, ids, elems, lig_order, parity, lone_pair=False):
+def star(cname, ids, elems, lig_order, parity, lone_pair=False, lp_pos=None):
     r = Ref("SMG")
     c, ligs = ids[0], ids[1:]
     r.atoms[c] = {"atom_type": elems[0]}
@@ -199,6 +199,11 @@ def star(cname, ids, elems, lig_order, parity, lone_pair=False):
         r.atoms[a] = {"atom_type": e}
         r.bonds[frozenset((c, a))] = {}
     atoms = (c,) + tuple(ligs[i] for i in lig_order) + ((None,) if lone_pair else ())
+    if lone_pair and lp_pos is not None:
+        # the placeholder at any ligand position (the importer only ever produces it last)
+        real = [a for a in atoms[1:] if a is not None]
+        real.insert(lp_pos - 1, None)
+        atoms = (c,) + tuple(real)
     r.atom_stereo[c] = (cname, atoms, parity)
     return r
 
@@ -219,12 +224,32 @@ def run_c13(rep, tier, seed):
         for lig_order in orders:
             for par in pars:
                 ids = rng.sample(range(1, 500), k + 1)
-                ref = star(cname, ids, [7 if lp else centre_elem[cname]] + lig_elems, lig_order, par, lp)
+                ref = star(cname, ids, [7 if lp else centre_elem[cname]] + lig_elems, lig_order, par, lp, rng.randint(1, 4) if lp else None)
                 distinct += 1
                 for os_ in (None, rng.randrange(10**6)):
                     ok, why = c13_case(ref, os_)
                     grp.case(ok, f"{cname} {ref.atom_stereo[ids[0]]} insertion seed {os_}: {why}", c13_body(ref, os_), sample=ref.describe())
         grp.close()
+    # a tetrahedral ligand atom on an octahedral / trigonal-bipyramidal / square-planar centre: exporting one centre must not
+    # disturb the other (the octahedral branch of the exporter re-adds the bonds of its centre)
+    grp = Group(rep, "C13/bounded/two-centres/tetrahedral-ligand-on-a-coordination-centre")
+    for cname, k, pars, lp, gname in specs[2:]:
+        for t in range(12 if tier == "quick" else 120):
+            ids = [10] + list(range(1, k + 1))
+            order = list(range(k))
+            rng.shuffle(order)
+            r = star(cname, ids, [centre_elem[cname], 6] + [9, 17, 35, 53, 1, 8][: k - 1], order, rng.choice([p for p in pars if p is not None]))
+            for a, e in zip((21, 22, 23), (9, 17, 1)):
+                r.atoms[a] = {"atom_type": e}
+                r.bonds[frozenset((1, a))] = {}
+            tl = [10, 21, 22, 23]
+            rng.shuffle(tl)
+            r.atom_stereo[1] = ("Tetrahedral", (1, *tl), rng.choice([1, -1]))
+            distinct += 1
+            os_ = rng.randrange(10**6)
+            ok, why = c13_case(r, os_)
+            grp.case(ok, f"{cname} centre with a tetrahedral ligand, insertion seed {os_}: {why}", c13_body(r, os_), sample=r.describe())
+    grp.close()
     # adjacent stereocentres, E/Z with regenerated bond orders, molecules imported from SMILES
     grp = Group(rep, "C13/bounded/imported-organic-molecules/atom-stereo")
     grp2 = Group(rep, "C13/bounded/isolated-double-bonds/E-Z-with-regenerated-bond-orders")
